@@ -176,6 +176,7 @@ def generate(reg, key, budget=None, parallel=None):
                         goal = F()
                         info = {"clause": c.ensures_src[k] + f"   [undefined on the produced result: {ue}]"}
                     ctx.oblige("ensures", f"{key}/{tag}ensures[{k}]", goal, info)
+                frame_obligations(it, c, key, tag, vals, old, False)
                 # every completed path is evidence against vacuity
                 ctx.oblige("canary", f"{key}/{tag}canary", F(), {"clause": "False (must be refuted)"})
                 return outcome
@@ -263,8 +264,83 @@ def collect_children(procs, deadline):
     return out
 
 
+def _unchanged(cur, old):
+    """z3 Bool 'cur equals the pre-state value old', or None if that is syntactically evident"""
+    from .values import VList, VDict, VSet, VByteArray, VObj, VOpt
+    from . import ops as _ops
+    if isinstance(cur, VObj) or isinstance(old, VObj):
+        return None if (isinstance(cur, VObj) and isinstance(old, VObj) and cur.id == old.id) else F()
+    if isinstance(cur, VList) and isinstance(old, VList):
+        if cur.concrete and old.concrete:
+            if len(cur.items) != len(old.items):
+                return F()
+            parts = [_unchanged(a, b) for a, b in zip(cur.items, old.items)]
+            parts = [x for x in parts if x is not None]
+            return z3.And(parts) if parts else None
+        if not cur.concrete and not old.concrete:
+            if cur.length is old.length and all(a is b or a.eq(b) for a, b in zip(cur.arrs, old.arrs)):
+                return None
+            return _ops.list_eq(cur, old)
+        return _ops.eq(cur, old)
+    if isinstance(cur, VByteArray) and isinstance(old, VByteArray):
+        return None if cur.z.eq(old.z) else cur.z == old.z
+    if isinstance(cur, VDict) and isinstance(old, VDict):
+        if cur.concrete and old.concrete:
+            if set(cur.items) != set(old.items):
+                return F()
+            parts = [_unchanged(cur.items[k], old.items[k]) for k in cur.items]
+            parts = [x for x in parts if x is not None]
+            return z3.And(parts) if parts else None
+        if not cur.concrete and not old.concrete:
+            if cur.present.eq(old.present) and all(a.eq(b) for a, b in zip(cur.arrs, old.arrs)):
+                return None
+            return z3.And([cur.present == old.present] + [a == b for a, b in zip(cur.arrs, old.arrs)])
+        return F()
+    if isinstance(cur, VSet) and isinstance(old, VSet):
+        if cur.arr is not None and old.arr is not None:
+            return None if cur.arr.eq(old.arr) else cur.arr == old.arr
+        if cur.items is not None and old.items is not None:
+            return None if len(cur.items) == len(old.items) else F()
+        return F()
+    try:
+        g = _ops.eq(cur, old)
+    except Unsupported:
+        return None
+    g = z3.simplify(g)
+    return None if z3.is_true(g) else g
+
+
+def frame_obligations(it, c, key, tag, vals, old, exceptional):
+    """everything reachable from the arguments that the contract does not list as modified is unchanged"""
+    from .callspec import reachable_lvalues
+    from .values import VFunc, VBuiltin, VClass, VRegex, VModule
+    if not c.modifies_declared:
+        return
+    allowed = c.raise_modifies if exceptional else c.modifies
+    cur_l = dict(reachable_lvalues(vals))
+    old_l = dict(reachable_lvalues(old))
+    goals = []
+    for path, ov in old_l.items():
+        if any(path == m or path.startswith(m + ".") for m in allowed):
+            continue
+        if isinstance(ov, (VFunc, VBuiltin, VClass, VRegex, VModule)):
+            continue
+        cv = cur_l.get(path)
+        if cv is None:
+            goals.append((path, F()))
+            continue
+        g = _unchanged(cv, ov)
+        if g is not None:
+            goals.append((path, g))
+    kind = "raise-frame" if exceptional else "frame"
+    for path, g in goals:
+        it.ctx.oblige("frame", f"{key}/{tag}{kind}[{path}]", g,
+                      {"clause": f"{path} is not in {'raise_modifies' if exceptional else 'modifies'} {allowed}: unchanged"})
+
+
 def _check_raise(it, sp, c, key, tag, pr, vals, closure_env):
     ctx = it.ctx
+    frame_obligations(it, c, key, tag, vals, it.old_env, True)
     chain = class_chain(getattr(pr.exc, "clsinfo", None) or pr.exc.cls)
     env1 = Env(closure_env or Env(None, {"__module__": it._target_mod}), dict(vals))
     env1.vars["exc"] = pr.exc
